@@ -69,8 +69,17 @@ fn op_code(op: Op) -> u64 {
     (op.k as u64) | (op.a as u64 & 0xffff) << 8 | (op.b as u64 & 0xffff) << 24 | (op.f as u64 & 0xffff) << 40
 }
 
-fn run_vec<K: Kind<Tok>>(plan: &Plan, st: &mut Stats, fl: &mut Flags, counts: &mut (u32, u32), viol_op: &mut Option<OpK>) {
-    let mut ex = VecExec::<K, Tok>::new(plan.kind, st);
+fn run_vec<K: Kind<Tok> + Kind<Wide>>(plan: &Plan, st: &mut Stats, fl: &mut Flags, counts: &mut (u32, u32), viol_op: &mut Option<OpK>) {
+    if plan.elem == 1 {
+        st.runs_wide += 1;
+        run_vec_x::<K, Wide>(plan, st, fl, counts, viol_op)
+    } else {
+        run_vec_x::<K, Tok>(plan, st, fl, counts, viol_op)
+    }
+}
+
+fn run_vec_x<K: Kind<X>, X: Item>(plan: &Plan, st: &mut Stats, fl: &mut Flags, counts: &mut (u32, u32), viol_op: &mut Option<OpK>) {
+    let mut ex = VecExec::<K, X>::new(plan.kind, st);
     ex.start_fresh_arr();
     for (i, op) in plan.ops.iter().enumerate() {
         set_step(i as u32);
@@ -233,7 +242,7 @@ pub fn execute(plan: &Plan, st: &mut Stats, trace: bool) -> Outcome {
 }
 
 pub fn plan_hash(p: &Plan) -> u64 {
-    let mut h = fnv_step(crate::rng::FNV_INIT, p.kind as u64);
+    let mut h = fnv_step(crate::rng::FNV_INIT, p.kind as u64 | (p.elem as u64) << 32);
     for op in &p.ops {
         h = fnv_step(h, op_code(*op));
     }
